@@ -987,3 +987,91 @@ Proof.
   split; [reflexivity|]. split; [now apply count_lang | now apply scan_lang].
 Qed.
 End Main.
+
+(* ------------------------------------------------------------------------- *)
+(* Part 6: C11 - sentences of the grammar (Pretty/Grammar.v)                  *)
+From RtoscV Require Import Pretty.Grammar.
+
+Definition wf_word (w : word) : Prop := good_val (w_val w) /\ sepw (w_sep w).
+
+Section Sentences.
+Variables dec2f dec2d : list Z -> Z.
+
+Lemma spell_word_tok w t : wf_word w -> spell_word w = Some t -> tokof dec2f dec2d (w_val w) t.
+Proof.
+  intros [Hg _] H. unfold spell_word in H.
+  destruct (print_scalar (w_opts w) (w_val w) (w_cols w)) as [[[t' n] c]|] eqn:E; [|discriminate].
+  inversion H; subst. exact (proj1 (scalar_tok dec2f dec2d _ _ _ _ _ _ Hg E)).
+Qed.
+
+Lemma spell_lang s : forall T, Forall wf_word s -> spell s = Some T -> lang dec2f dec2d (denote s) T.
+Proof.
+  induction s as [|w rest IH]; intros T Hw H.
+  - inversion H; subst. constructor.
+  - pose proof (Forall_inv Hw) as Hw1. pose proof (Forall_inv_tail Hw) as Hw2.
+    cbn [spell] in H. destruct rest as [|w' rest'].
+    + cbn. constructor. now apply spell_word_tok.
+    + destruct (spell_word w) as [t|] eqn:Et; [|discriminate].
+      destruct (spell (w' :: rest')) as [T'|] eqn:ET; [|discriminate].
+      inversion H; subst. cbn [denote map].
+      apply L_cons; [now apply spell_word_tok | apply Hw1 | exact (IH _ Hw2 eq_refl)].
+Qed.
+
+Theorem sentences_agree s T :
+  Forall wf_word s -> spell s = Some T ->
+  count_printed_arg_vals T = Ok (true, Z.of_nat (length s)) /\
+  scan_arg_vals dec2f dec2d T (Z.of_nat (length s)) = Ok (denote s, []).
+Proof.
+  intros Hw H. pose proof (spell_lang s T Hw H) as HL.
+  replace (length s) with (length (denote s)) by apply map_length.
+  split; [now apply (count_lang dec2f dec2d) | now apply scan_lang].
+Qed.
+
+Theorem sentences_ws_invariant s1 s2 T1 T2 :
+  Forall wf_word s1 -> Forall wf_word s2 -> denote s1 = denote s2 ->
+  spell s1 = Some T1 -> spell s2 = Some T2 ->
+  scan_arg_vals dec2f dec2d T1 (Z.of_nat (length s1)) =
+  scan_arg_vals dec2f dec2d T2 (Z.of_nat (length s2)).
+Proof.
+  intros H1 H2 Hd E1 E2.
+  rewrite (proj2 (sentences_agree s1 T1 H1 E1)), (proj2 (sentences_agree s2 T2 H2 E2)).
+  now rewrite Hd.
+Qed.
+
+Theorem sentences_reprint s T o T' w :
+  Forall wf_word s -> spell s = Some T ->
+  print_arg_vals o (denote s) 0 = Some (T', w) ->
+  scan_arg_vals dec2f dec2d T' (Z.of_nat (length s)) = scan_arg_vals dec2f dec2d T (Z.of_nat (length s)).
+Proof.
+  intros Hw H Hp. rewrite (proj2 (sentences_agree s T Hw H)).
+  assert (Hg : Forall good_val (denote s)).
+  { unfold denote. apply Forall_map. eapply Forall_impl; [|exact Hw]. intros a Ha. apply Ha. }
+  pose proof (roundtrip_scalars dec2f dec2d o (denote s) T' w Hg Hp) as (_ & _ & Hs).
+  unfold denote in Hs. rewrite map_length in Hs. exact Hs.
+Qed.
+
+(* a sentence with a line break, a tab and a broken string as separators / spelling *)
+Definition ex_opts : popts := {| lossless := true; prec := 2; linelength := 12; compress := false |}.
+Definition ex_sentence : list word :=
+  [ {| w_val := VI (-10); w_opts := ex_opts; w_cols := 0; w_sep := [10; 32; 32] |};
+    {| w_val := VS [104; 101; 108; 108; 111; 10; 119; 111; 114; 108; 100; 34]; w_opts := ex_opts; w_cols := 9; w_sep := [9] |};
+    {| w_val := VC 39; w_opts := ex_opts; w_cols := 0; w_sep := [32] |};
+    {| w_val := VH 5; w_opts := ex_opts; w_cols := 0; w_sep := [32] |} ].
+
+Lemma ex_sentence_wf : Forall wf_word ex_sentence /\ exists T, spell ex_sentence = Some T.
+Proof.
+  split.
+  - repeat constructor; cbn; try lia; try discriminate.
+  - eexists. vm_compute. reflexivity.
+Qed.
+End Sentences.
+
+Lemma nonvacuous_list :
+  Forall good_val [VI (-10); VI (-20); VS [104; 101; 108; 108; 111; 10; 34]; VC 39; VH 5; VT; VSym [49; 120]] /\
+  exists text w, print_arg_vals {| lossless := true; prec := 2; linelength := 10; compress := false |}
+    [VI (-10); VI (-20); VS [104; 101; 108; 108; 111; 10; 34]; VC 39; VH 5; VT; VSym [49; 120]] 0 = Some (text, w).
+Proof.
+  split.
+  - repeat constructor; cbn; try lia; try discriminate.
+  - eexists _, _. vm_compute. reflexivity.
+Qed.
